@@ -607,6 +607,12 @@ class MarkdownNormalizer(Renderer):
             self._prefix = self._second_prefix
             # Don't skip next blank line or suppress item break for hard breaks
             return result
+        elif self._list_depth > 0 and self._current_list_tight:
+            # Inside an item of a tight list no blank line follows the heading: between two
+            # blocks of an item it would make the list loose.
+            result = f"{self._prefix}{'#' * element.level} {children_content}\n"
+            self._prefix = self._second_prefix
+            return result
         else:
             # The blank line after the heading carries the container prefix (`>` inside a
             # quote); a bare blank line would end the quote there.
